@@ -173,10 +173,11 @@ def bool_atom(c, positive):
         if nm == 'is_empty' and len(c[2]) == 1:
             x = canon(c[2][0])
             return [('cmp', 'Eq', '0', 'len(%s)' % x)] if positive else [('cmp', 'Le', '1', 'len(%s)' % x)]
+        # the same facts as a `match` on the variant: ('succ', X) / ('fail', X)
         if nm in ('is_some', 'is_ok') and len(c[2]) == 1:
-            return [('is_some', canon(c[2][0]), positive)]
+            return [('succ' if positive else 'fail', canon(c[2][0]))]
         if nm in ('is_none', 'is_err') and len(c[2]) == 1:
-            return [('is_some', canon(c[2][0]), not positive)]
+            return [('fail' if positive else 'succ', canon(c[2][0]))]
         return [('pred', nm, tuple(canon(a) for a in c[2]), positive)]
     if c.tag == 'const' and isinstance(c[1], bool):
         return [('const', c[1] == positive)]
